@@ -304,6 +304,34 @@ func init() {
 		p.Transfer = tp
 	}, Run: func(env *Env, p *Plan) { RunTransfer(env, p.Transfer) }})
 
+	// C20: concurrent API and RPC users while the torrent transfers
+	Register(&Scenario{Name: "apistress", Gen: func(r *simrt.Rand, tier string, p *Plan) {
+		tp := genTransferBase(r, tier)
+		np := numPiecesOf(tp.Layout)
+		tp.K.RPCEnabled = true
+		tp.K.ResumeWriteInterval = r.Dur(200*time.Millisecond, 3*time.Second)
+		tp.FaultsStop = r.Dur(20*time.Second, 60*time.Second)
+		tp.Bound = 30 * time.Second
+		tp.Liveness = false
+		tp.DiskWriteLatMax = simrt.Pick(r, []time.Duration{time.Millisecond, 50 * time.Millisecond, 500 * time.Millisecond})
+		for i := 0; i < r.Range(1, 4); i++ {
+			ps := honestPeer(r, tp.Layout, fmt.Sprintf("h%d", i), np)
+			ps.B.ServeDelay = [2]time.Duration{0, r.Dur(0, 300*time.Millisecond)}
+			if r.Chance(0.4) {
+				ps.B.Leech, ps.B.LeechInterested, ps.B.LeechPipeline = true, true, r.Range(1, 20)
+			}
+			if r.Chance(0.4) {
+				ps.Mode, ps.Via = "listen", "manual"
+			}
+			tp.Peers = append(tp.Peers, ps)
+		}
+		if r.Chance(0.4) {
+			tp.Webseeds = append(tp.Webseeds, WebseedSpec{Name: "w0", Mode: "honest", Honest: true})
+		}
+		tp.API = &APISpec{Clients: r.Range(2, 5), Ops: r.Range(20, 120), RPC: r.Chance(0.6), Heavy: r.Chance(0.6), Gap: [2]time.Duration{0, r.Dur(time.Millisecond, time.Second)}}
+		p.Transfer = tp
+	}, Run: func(env *Env, p *Plan) { RunTransfer(env, p.Transfer) }})
+
 	// C17: every configured limit under swarm load (see limits.go)
 	Register(&Scenario{Name: "limits", Gen: func(r *simrt.Rand, tier string, p *Plan) {
 		tp := genTransferBase(r, tier)
